@@ -1,10 +1,13 @@
 package x0004
 
-type G struct {
-	V, W int64
+type A struct {
+	X int32
+	Y *string
 }
 
 type T struct {
-	K int32
-	H *G
+	ID int64
+	B A
+	S *A
+	P []A
 }
